@@ -43,4 +43,22 @@ MANIFEST = dict(
 )
 
 THEOREMS = [
+    ("DastardV.Props.C19", "DastardV.C19.C19_rccode_roundtrip"),
+    ("DastardV.Props.C19", "DastardV.C19.C19_rccode_fields_mod"),
+    ("DastardV.Props.C19", "DastardV.C19.C19_rccode_guards_needed"),
+    ("DastardV.Props.C19", "DastardV.C19.C19_names_injective"),
+    ("DastardV.Props.C19", "DastardV.C19.C19_filenames_distinct"),
+    ("DastardV.Props.C19", "DastardV.C19.C19_lancero_injective"),
+    ("DastardV.Props.C19", "DastardV.C19.C19_lancero_positions"),
+    ("DastardV.Props.C19", "DastardV.C19.C19_accept_iff"),
+    ("DastardV.Props.C19", "DastardV.C19.C19_rejects_collisions"),
+    ("DastardV.Props.C19", "DastardV.C19.C19_rejects_bad_separations"),
+    ("DastardV.Props.C19", "DastardV.C19.C19_abaco_unique"),
+    ("DastardV.Props.C19", "DastardV.C19.C19_groups_cover_list"),
+    ("DastardV.Props.C19", "DastardV.C19.C19_groups_cover_exactly"),
+    ("DastardV.Props.C19", "DastardV.C19.C19_codes_decode_partial"),
+    ("DastardV.Props.C19", "DastardV.C19.C19_codes_decode_counterexample"),
+    ("DastardV.Props.C19", "DastardV.C19.C19_header_identity_eq_status"),
+    ("DastardV.Props.C19", "DastardV.C19.C19_model_passes_oracle"),
+    ("DastardV.Props.C19", "DastardV.C19.C19_oracle_sound"),
 ]
